@@ -393,7 +393,7 @@ def run(tier: str, only=None) -> int:
     from engine import harness
 
     umask = harness.stmt_mask(lambda m, q, l: m == "gateway_base" and (q.startswith("Unserializer.") or q in ("loads", "load")))
-    harness.run_exploration(rep, PID, "concload", ConcLoadScn, {}, {"ps": 0, "pl": 1, "free": 0} if tier == "quick" else {"ps": 0, "pl": 2, "free": 0}, stmt=umask, max_execs=2000000, horizon=200000)
+    harness.run_exploration(rep, PID, "concload", ConcLoadScn, {}, {"ps": 0, "pl": 1, "free": 0}, stmt=umask, max_execs=2000000, horizon=200000)  # one preemption at each of ~7000 statement points
     # no strict prefix of a valid dump may load successfully
     import execnet
 
